@@ -6,6 +6,16 @@
     `a[i]` read as a snapshot, which is why the engine itself refuses the chained store).
 (2) `np.array([s0, s1, ...])` of scalars: a fresh 1-D array of that length holding exactly those values
     (int elements when every value is an integer, else real).
+(2b) `a[i, lo:hi] = <1-D array of statically known length n>`: n element stores; obligations: the slice lies inside the
+    row and hi - lo == n (numpy would clamp / broadcast; neither is assumed).
+(3) `a[:] = scalar` on a 1-D array: every element becomes the scalar.
+(4) gather `a[rows]` with a 1-D int array `rows` of statically known length (literal, or fixed by a path-condition fact
+    `len == <numeral>`): g[j] == a[rows[j]]; every rows[j] must be a valid non-negative index (obligations).
+(5) np.max / np.min of a 1-D array (only installed when no other extension provides them).
+(6) `np.argmin(np.sum((X - y) ** 2.0, axis=1))`: first index of a row of X nearest to the point y.
+(7) `np.sum(A <cmp> c, axis=1)` for a 2-D array with a statically known number of columns: per-row count.
+Handlers (2), (6), (7) are installed by `install()` in front of whatever is registered and pass every form they do not
+recognise on to the previous handler.
 """
 from __future__ import annotations
 import ast
@@ -233,7 +243,6 @@ def _np_argmin(E, node, st, _prev=None):
     if not (isinstance(l, (Ref, Arr)) and isinstance(r, (Ref, Arr))):
         raise OutsideSubset("np.argmin operands")
     L, Rr = E.deref(l, st), E.deref(r, st)
-    sign_flip = False
     if L.rank == 1 and Rr.rank == 2:
         L, Rr = Rr, L          # (y - X)**2 == (X - y)**2
     if not (L.rank == 2 and Rr.rank == 1 and L.elem == "real" and Rr.elem == "real"):
